@@ -66,6 +66,26 @@ func TestC15(t *testing.T) {
 			NoStoreOnDel: KFActive("f11-store-and-delete-same-txn"), NoOpAfterLenMerge: KFActive("f15-difflen-merge-reorder")}
 		sc := newStreamChecker()
 		interesting := false
+		// a relay: a collection that replays the stream AND has a logger (and a few writes) of its own.
+		// What IT emits is a change stream too: one commit per replayed commit / local write, with
+		// distinct non-zero IDs that increase per block in the order the relay applied them.
+		rlog := &recLogger{}
+		relay := newCollection(sch, column.Options{Writer: rlog})
+		defer relay.Close()
+		rsc := newStreamChecker()
+		relayStep := func(t *rapid.T, what string, block uint32, fn func()) {
+			rn0 := rlog.Len()
+			fn()
+			out := rlog.Since(rn0)
+			if len(out) != 1 || uint32(out[0].Chunk) != block {
+				mc.fail(t, "relay (replays the stream, has its own logger): %s on block %d made it emit %d commit(s) %v", what, block, len(out), out)
+			}
+			for _, rc := range out {
+				if err := rsc.add(rc); err != nil {
+					mc.fail(t, "relay (replays the stream, has its own logger): after %s: %v", what, err)
+				}
+			}
+		}
 		// drainCheck compares what the logger got since n0 with the blocks the model says changed.
 		drainCheck := func(t *rapid.T, n0 int, wantBlocks map[uint32]bool, what string) {
 			got := log.Since(n0)
@@ -75,6 +95,21 @@ func TestC15(t *testing.T) {
 				if err := sc.add(rc); err != nil {
 					mc.fail(t, "%s: %v", what, err)
 				}
+				if rapid.IntRange(0, 2).Draw(t, "relay-local-write") == 0 {
+					// a write of the relay's own into the block the next replayed commit belongs to
+					off := uint32(rc.Chunk)<<14 + uint32(rapid.IntRange(0, 200).Draw(t, "relay-row"))
+					relayStep(t, "a local write", uint32(rc.Chunk), func() {
+						relay.QueryAt(off, func(r column.Row) error { r.SetInt64("expire", 0); return nil })
+					})
+					mc.flag("relay-local-write")
+				}
+				relayStep(t, fmt.Sprintf("Replay of commit #%d", rc.Seq), uint32(rc.Chunk), func() {
+					cl := rc.Clone.Clone()
+					cl.ID = rc.ID
+					if err := relay.Replay(cl); err != nil {
+						mc.fail(t, "relay: Replay of commit #%d: %v", rc.Seq, err)
+					}
+				})
 				// the same commit as a commit.Channel consumer receives it
 				select {
 				case viaCh := <-ch:
